@@ -62,6 +62,16 @@ def _operand(w, okind, o):
     return w.opoly(o)
 
 
+def _aliases(w, r, *operands):
+    """the result of an out-of-place operator is a value of its own: changing it in place must not change an operand"""
+    before = [w.txt(o) for o in operands]
+    try:
+        r += w.elem(1)
+    except Exception:  # noqa: BLE001
+        return False
+    return any(w.txt(o) != t for o, t in zip(operands, before))
+
+
 def real_eval(w, case):
     """Run one case on the real classes; returns canonical text (value, True/False, int, or exception class)."""
     kind = case[0]
@@ -102,7 +112,11 @@ def real_eval(w, case):
                     return 'inplace-returned-new-object'
             if not w.reduced(r):
                 return f'UNREDUCED:{r!r}'
-            return w.txt(r)
+            out = w.txt(r)
+            if op in ('add', 'sub', 'mul', 'truediv', 'radd', 'rsub', 'rmul', 'rtruediv') and \
+                    _aliases(w, r, *([x, y] if okind == 'e' else [x])):
+                return f'ALIASED-OPERAND:{op}'
+            return out
         if kind == 'un':
             _, op, a = case
             x = w.elem(a)
@@ -124,7 +138,10 @@ def real_eval(w, case):
                 raise KeyError(op)
             if not w.reduced(r):
                 return f'UNREDUCED:{r!r}'
-            return w.txt(r)
+            out = w.txt(r)
+            if _aliases(w, r, x):
+                return f'ALIASED-OPERAND:{op}'
+            return out
         if kind == 'sh':
             _, op, a, n = case
             x = w.elem(a)
@@ -149,7 +166,10 @@ def real_eval(w, case):
                     return 'inplace-returned-new-object'
             if not w.reduced(r):
                 return f'UNREDUCED:{r!r}'
-            return w.txt(r)
+            out = w.txt(r)
+            if op in ('pow', 'lshift', 'rshift') and _aliases(w, r, x):
+                return f'ALIASED-OPERAND:{op}'
+            return out
         if kind == 'eq':
             _, a, okind, o = case
             x = w.elem(a)
